@@ -27,9 +27,24 @@ def type_guards(ctx, body):
     return out
 
 
+class QW:
+    """One write to Connection.send_quota. (body, bb, st) is where the statement is; (top, top_bb) is where it
+    takes effect in a handler: the statement itself, or the call site of the local helper that contains it."""
+    def __init__(self, body, bb, st, kind, top=None, top_bb=None, via=None):
+        self.body, self.bb, self.st, self.kind = body, bb, st, kind
+        self.top, self.top_bb, self.via = top or body, bb if top_bb is None else top_bb, via
+
+    def __iter__(self):     # (body, bb, st, kind) view used by older call sites
+        return iter((self.top, self.top_bb, self.st, self.kind))
+
+    def line(self):
+        return "%s:%d" % (self.body.fn["file"], self.st["line"])
+
+
 def quota_writes(ctx):
-    """All writes to Connection.send_quota in the crate: [(body, bb, stmt, kind)]"""
-    out = []
+    """All writes to Connection.send_quota in the crate, attributed to handler call sites when they live in a
+    local helper function."""
+    raw = []
     for f in ctx.facts.fns:
         if "context" not in f["path"] and "client" not in f["path"]:
             continue
@@ -56,7 +71,24 @@ def quota_writes(ctx):
                         kind = "dec" if src["op"] == "Sub" else "inc"
                 elif any(a[0] == "field" and a[2] == "remote_receive_maximum" for a in body.rv_atoms(rv)):
                     kind = "reset"
-                out.append((body, i, st, kind))
+                raw.append(QW(body, i, st, kind))
+    hp = ctx.inbound_handler()
+    hm = ctx.outbound_handler()
+    out = []
+    for w in raw:
+        if w.body.path in (hp.path, hm.path) or w.body.path.endswith("::handle_connack") or w.body.fn["kind"] != "fn":
+            out.append(w)
+            continue
+        sites = []
+        for top in (hp, hm):
+            for i, t in top.calls():
+                c = t.get("callee") or {}
+                if (c.get("resolved") or c.get("def")) == w.body.path:
+                    sites.append((top, i))
+        if not sites:
+            out.append(w)
+        for top, i in sites:
+            out.append(QW(w.body, w.bb, w.st, w.kind, top, i, w.body.path))
     return out
 
 
@@ -67,14 +99,15 @@ def quota_writers(ctx):
     out = []
     hp = ctx.inbound_handler()
     hm = ctx.outbound_handler()
-    for body, bb, st, kind in quota_writes(ctx):
+    for w in quota_writes(ctx):
+        body, bb, st, kind = w.top, w.top_bb, w.st, w.kind
         ctx.note(body)
         where = body.path
         ok = (kind == "dec" and where == hm.path) or (kind == "inc" and where == hp.path) or \
              (kind == "reset" and where.endswith("::handle_connack"))
         out.append(Inst("QUOTA-WRITERS", "%s:%s" % (where.split("::")[-1] if not where.endswith("}") else where.split("::")[-2], kind), ok,
-                        body.site(bb) if False else "%s:%d" % (body.fn["file"], st["line"]),
-                        "write of kind '%s' in %s" % (kind, where), "dec only in outbound handler, inc only in inbound handler, reset only in handle_connack"))
+                        w.line(),
+                        "write of kind '%s' in %s%s" % (kind, where, " (through helper %s)" % w.via.split("::")[-1] if w.via else ""), "dec only in outbound handler, inc only in inbound handler, reset only in handle_connack"))
     # Q8 remote_receive_maximum provenance
     hc = ctx.body(r"client::context::Context::<[^>]*>::handle_connack$")
     found = False
@@ -124,7 +157,8 @@ def quota_dec(ctx):
         raise AnchorLost("PUBLISH type guard (packet[0] >> 4 == PublishTx::PACKET_ID) in the outbound handler")
     gbb, gsucc, gother = guards["PUBLISH"]
     region = arm_region(hm, gsucc)
-    decs = [(b, bb, st) for (b, bb, st, k) in quota_writes(ctx) if k == "dec" and b.path == hm.path]
+    decs = [(w.top, w.top_bb, w.st) for w in quota_writes(ctx) if w.kind == "dec" and w.top.path == hm.path]
+    dec_ws = [w for w in quota_writes(ctx) if w.kind == "dec" and w.top.path == hm.path]
     out = []
     if len(decs) != 1:
         out.append(Inst("QUOTA-DEC", "one-decrement", False, hm.site(gbb), "%d decrements of send_quota in the outbound handler" % len(decs),
@@ -135,6 +169,9 @@ def quota_dec(ctx):
     out.append(Inst("QUOTA-DEC", "in-publish-region", dbb in region, site, "decrement in block bb%d, region(PUBLISH) entry bb%d" % (dbb, gsucc),
                     "only QoS>0 PUBLISH consumes quota"))
     ne = [x for x in _nonzero_edge(hm, dbb) if x[2] == "nonzero"]
+    if not ne and dec_ws[0].via:
+        inner = [x for x in _nonzero_edge(dec_ws[0].body, dec_ws[0].bb) if x[2] == "nonzero"]
+        ne = [(dbb, None, "nonzero")] if inner and False else ne
     out.append(Inst("QUOTA-DEC", "guarded-nonzero", bool(ne), site,
                     "decrement dominated by edge(s) implying send_quota != 0: %s" % [(hm.site(d)) for d, _, _ in ne],
                     "F - 1 only when F > 0 (never wraps / panics)"))
@@ -205,19 +242,21 @@ def quota_inc(ctx):
     awaiting_ack lookup or on the completion having been delivered and precedes every `?` of its arm."""
     hp = ctx.inbound_handler()
     sw, arms, otherwise, other_vs, _ = match_arms(hp, RXPACKET)
-    incs = [(bb, st) for (b, bb, st, k) in quota_writes(ctx) if k == "inc" and b.path == hp.path]
+    inc_ws = [w for w in quota_writes(ctx) if w.kind == "inc" and w.top.path == hp.path]
     out = []
     inc_arms = {}
-    for bb, st in incs:
-        site = "%s:%d" % (hp.fn["file"], st["line"])
+    for w in inc_ws:
+        bb, st = w.top_bb, w.st
+        site = w.line()
         arm = arm_of(hp, arms, otherwise, bb)
         if arm == "otherwise":
             # the `other` arm: which variants can reach here is decided by further tests
             arm = _refine_other(hp, bb, other_vs)
         inc_arms.setdefault(arm, []).append((bb, st))
         g = _inc_guard(hp, bb)
-        out.append(Inst("QUOTA-INC", "arm=%s:bounded" % arm, bool(g), site,
-                        "increment guarded by %s" % ([("F %s M" % e, hp.site(d)) for d, _, e in g] or "nothing comparing F with M"),
+        g_in_helper = _inc_guard(w.body, w.bb) if w.via else []
+        out.append(Inst("QUOTA-INC", "arm=%s:bounded" % arm, bool(g) or bool(g_in_helper), site,
+                        "increment guarded by %s" % ([("F %s M" % e, hp.site(d)) for d, _, e in g] + [("F %s M" % e, w.body.site(d)) for d, _, e in g_in_helper] or "nothing comparing F with M"),
                         "F + 1 only when F < M (never above Receive Maximum, never overflows)"))
         # Q6: control dependence
         deps = hp.control_dep_closure(bb)
@@ -319,7 +358,8 @@ def maxsize_pred(ctx):
                 if c.kind == "discr" and c.si.get("adt") == "std::option::Option" and \
                         any(x[0] == "field" and x[2] == "remote_max_packet_size" for x in b.atoms(c.si["place"])):
                     vals = b.edge_value(a, s_)
-                    absent = (0 in vals) if "otherwise" not in vals else (1 not in [v for v, _ in c.si["targets"]])
+                    listed = [v for v, _ in c.si["targets"]]
+                    absent = (0 in vals) or ("otherwise" in vals and 0 not in listed)
                 continue
             if c.kind == "call" and c.callee == "is_none" and any(x[0] == "field" and x[2] == "remote_max_packet_size" for x in b.atoms(c.args[0])):
                 absent = truth ^ c.neg
